@@ -22,6 +22,10 @@ REPERTOIRE = {
     # script-specific glyphs with a NEUTRAL bidi class (points / marks whose Script property is Hebrew / Arabic)
     "rtlneutral": [("hiriq-hb", 0x5B4), ("dagesh-hb", 0x5BC), ("alefabove-ar", 0x670), ("qamats-hb", 0x5B8)],
     "unencoded": [("a.alt", None), ("x.alt", None), ("period.alt", None), ("alef-ar.fina", None)],
+    # scripts encoded above U+FFFF (the compiled font then carries a BMP-only and a full cmap subtable)
+    "osge": [("a-osage", 0x104B0), ("ai-osage", 0x104B1)],
+    "dsrt": [("longi-deseret", 0x10400), ("longe-deseret", 0x10401)],
+    "adlm": [("alif-adlam", 0x1E900), ("daali-adlam", 0x1E901)],
 }
 
 
@@ -99,6 +103,12 @@ def chain_pairs_font(rng, k):
 
     tags = {"latin": "latn", "cyrl": "cyrl", "grek": "grek", "armn": "armn", "geor": "geor"}
     scripts = rng.sample(sorted(tags), 4 if k % 3 else 5)
+    if k % 4 == 1:
+        # one of the scripts lives in a supplementary plane
+        sup = {"osge": "osge", "dsrt": "dsrt", "adlm": "adlm"}
+        extra = sorted(sup)[(k // 4) % 3]
+        tags = dict(tags, **sup)
+        scripts[(k // 4) % len(scripts)] = extra
     gl = []
     for sc in scripts:
         gl += REPERTOIRE[sc][:2]
